@@ -153,14 +153,14 @@ inductive Ann
   | tvarBound (b : Ann)
   | tvarConstr (cs : List Ann)
   | tvarFree
-  | fref (lit : Bool)          -- ForwardRef(arg); `lit`: arg.startswith("Literal")
+  | fref (lit : Bool) (br : Bool)   -- ForwardRef(arg); `lit`: arg.startswith("Literal"); `br`: "[" in arg
   deriving Repr, Inhabited
 
 namespace Ann
 
 def isBase : Ann → Bool | .base _ => true | _ => false
 def isUnion : Ann → Bool | .union _ _ => true | _ => false
-def isFref : Ann → Bool | .fref _ => true | _ => false
+def isFref : Ann → Bool | .fref _ _ => true | _ => false
 def isAlias : Ann → Bool | .alias _ => true | _ => false
 def isNewtype : Ann → Bool | .newtype _ => true | _ => false
 
@@ -399,7 +399,7 @@ def isoptionaltypeM (a : Ann) : Bool :=
 def isliteralM (a : Ann) : Bool :=
   (originM L a).isBaseId L.literalId ||
     (match a with
-     | .fref lit => lit
+     | .fref lit _ => lit
      | _ => false)
 
 /-- `isfinal` (inspection.py:590-602). -/
@@ -461,6 +461,7 @@ def reprBracket : Ann → Bool
     | some r => hasBracket r.str
     | none => false
   | .union .pipe ms => ms.any (memberBracket L)
+  | .fref _ br => br                    -- repr: ForwardRef('arg')
   | a => memberBracket L a
 
 /-- `isgeneric` (inspection.py:1331-1355). -/
@@ -524,8 +525,8 @@ def istypedtupleM : Ann → Bool
 
 /-- One `Option` layer: `none` = `AttributeError` (`t.__args__` on an object that has none). -/
 def unwrapM : Ann → Option Ann
-  | .final a => unwrapM a
-  | .classvar a => unwrapM a
+  | .final a => if shouldUnwrapM L (.final a) then unwrapM a else some (.final a)
+  | .classvar a => if shouldUnwrapM L (.classvar a) then unwrapM a else some (.classvar a)
   | .alias a => if shouldUnwrapM L (.alias a) then none else unwrapM a
   | .newtype a => if shouldUnwrapM L (.newtype a) then none else unwrapM a
   | .tvarBound b => unwrapM b
@@ -592,7 +593,7 @@ def erase : Ann → Ann
   | .tvarBound b => .tvarBound (erase b)
   | .tvarConstr cs => .tvarConstr (eraseList cs)
   | .tvarFree => .tvarFree
-  | .fref l => .fref l
+  | .fref l b => .fref l b
 termination_by structural a => a
 def eraseList : List Ann → List Ann
   | [] => []
